@@ -219,7 +219,7 @@ func init() {
 			{Name: "exhaustive", QShards: 4, TShards: 10, Run: c12Exhaustive},
 			{Name: "random", TShards: 4, Run: c12Random},
 			{Name: "bytes", Run: c12Bytes},
-			{Name: "longcontext", TShards: 2, Run: func(c *Ctx) {
+			{Name: "longcontext", QShards: 4, TShards: 10, Run: func(c *Ctx) {
 				longContextPanics(c, 0, "ACGTNacgtn", []byte{'U', 'R', '@', 0, 0xff, 0x80, 'B', 'M'}, map[string]func([]byte){
 					"ReverseComplement":       func(s []byte) { sequtil.ReverseComplement(nil, s) },
 					"ReverseComplementString": func(s []byte) { sequtil.ReverseComplementString(string(s)) },
@@ -228,6 +228,7 @@ func init() {
 						}
 					}})
 			}},
+			{Name: "motifs", TShards: 4, Run: c12Motifs},
 			{Name: "hugek", QShards: 2, TShards: 8, Run: c12HugeK},
 			{Name: "readers", Race: true, QShards: 2, TShards: 4, Run: c12Readers},
 			{Name: "parallel", Race: true, Run: sequtilParallel("revcomp")},
@@ -519,5 +520,37 @@ func c12HugeK(c *Ctx) {
 				idx++
 			}
 		}
+	}
+}
+
+// c12Motifs: CanonicalSubsequences (and the strand symmetry of its items) on
+// sequences built around the motifs of genMotif, with k spanning the motif, one
+// less and one more: the strand choice is decided late, or is a tie.
+func c12Motifs(c *Ctx) {
+	n := c.N(1500, 40000)
+	for i := 0; i < n; i++ {
+		c.Case(int64(i), func(k *K) {
+			r := k.Rand()
+			motif, kk := genMotif(r, i, "ACGTN")
+			left, right := randSeq(r, []byte("ACGTNacgtn"), r.IntN(40)), randSeq(r, []byte("ACGTNacgtn"), r.IntN(40))
+			seq := append(append(append([]byte{}, left...), motif...), right...)
+			if r.IntN(2) == 0 {
+				seq = refRevComp(seq)
+			}
+			k.Input("motif", motif)
+			for _, k2 := range []int{kk, kk - 1, kk + 1} {
+				if k2 < 1 {
+					continue
+				}
+				checkCanonical(k, seq, k2)
+				if k.Failed() {
+					return
+				}
+				k.Count("canonical_checked", int64(max(0, len(seq)-k2+1)))
+			}
+			k.Count("motif_cases", 1)
+			k.Evals(2)
+			k.Nontrivial(seq, []byte(fmt.Sprint(kk)))
+		})
 	}
 }
